@@ -386,6 +386,17 @@ func runC07(c *Ctx) {
 		s, class := genWfStream(rng, 5, maxCert)
 		c.evalDecode("c07_decode", "grammar/"+class, s, decodeEntries(rng), nil)
 	}
+	// lists of a few hundred hashes (dbx): counts around the sizes at which decoders batch their reads
+	for _, cnt := range []int{127, 128, 129, 130, 255, 256, 257, 300 + rng.Intn(300)} {
+		sigs := make([][]byte, cnt)
+		for i := range sigs {
+			sigs[i] = append(randBytes(rng, 16), randBytes(rng, 32)...)
+		}
+		whole := encList(gSHA256, uint32(28+48*cnt), 0, 48, nil, sigs)
+		c.evalDecode("c07_decode", "hundreds-of-hashes", whole, decodeEntries(rng), nil)
+		next, _ := genWfList(rng, 40)
+		c.evalDecode("c07_decode", "hundreds-of-hashes/then-list", append(append([]byte{}, whole...), next...), decodeEntries(rng), nil)
+	}
 	// databases built through the library's own operations, decodable types only
 	u := newSigUniverse(rng)
 	nh := c.N(150, 15000)
